@@ -51,6 +51,23 @@ func (p *c14) nativeCallbacks(x *res, adapter string) {
 				keep(item)
 			})
 		}, adapt.Op{Kind: adapt.OpUpdate, Table: spec.Name, Key: key, Update: "SET w = :w", Values: val.Item{":w": val.List(val.Str("written"), val.Bin("by the updater"))}}},
+		// ... an update that carries no expression attribute values at all (the updater has its own vocabulary), on a
+		// stored item and creating one
+		{"updater-without-values", func(n *interpreter.Native, keep func(map[string]*mtypes.Item)) {
+			n.AddUpdater(spec.Name, "REMOVE n", func(item map[string]*mtypes.Item, _ map[string]*mtypes.Item) {
+				delete(item, "n")
+				s := "released"
+				item["lease"] = &mtypes.Item{S: &s}
+				keep(item)
+			})
+		}, adapt.Op{Kind: adapt.OpUpdate, Table: spec.Name, Key: key, Update: "REMOVE n"}},
+		{"updater-without-values-upsert", func(n *interpreter.Native, keep func(map[string]*mtypes.Item)) {
+			n.AddUpdater(spec.Name, "REMOVE n", func(item map[string]*mtypes.Item, _ map[string]*mtypes.Item) {
+				b := []byte("fresh")
+				item["payload"] = &mtypes.Item{B: b}
+				keep(item)
+			})
+		}, adapt.Op{Kind: adapt.OpUpdate, Table: spec.Name, Key: val.Item{"h": val.Str("created-by-the-update")}, Update: "REMOVE n"}},
 		{"updater-with-condition-matcher", func(n *interpreter.Native, keep func(map[string]*mtypes.Item)) {
 			n.AddUpdater(spec.Name, "SET w = :w", func(item map[string]*mtypes.Item, vals map[string]*mtypes.Item) { item["w"] = vals[":w"] })
 			n.AddMatcher(spec.Name, interpreter.ExpressionTypeConditional, "attribute_exists(h)", func(item map[string]*mtypes.Item, _ map[string]*mtypes.Item) bool {
@@ -81,7 +98,12 @@ func (p *c14) nativeCallbacks(x *res, adapter string) {
 				x.r.Inconclusive++ // the callback never ran: nothing to scramble
 				break
 			}
-			before := cl.Do(adapt.Op{Kind: adapt.OpGet, Table: spec.Name, Key: key})
+			rk := key
+			if rn.op.Kind == adapt.OpUpdate && rn.op.Key != nil {
+				rk = rn.op.Key
+			}
+			before := cl.Do(adapt.Op{Kind: adapt.OpGet, Table: spec.Name, Key: rk})
+			beforeScan := cl.Do(adapt.Op{Kind: adapt.OpScan, Table: spec.Name})
 			var locs []pokeLoc
 			for _, m := range kept {
 				walkLocs(reflect.ValueOf(m), "", &locs, 0)
@@ -102,10 +124,10 @@ func (p *c14) nativeCallbacks(x *res, adapter string) {
 			}
 			x.r.Counters["native_callback_pokes"]++
 			x.fp(true, "%s|native|%s|%s", adapter, rn.name, pathKinds(locs[li].path))
-			after := cl.Do(adapt.Op{Kind: adapt.OpGet, Table: spec.Name, Key: key})
+			after := cl.Do(adapt.Op{Kind: adapt.OpGet, Table: spec.Name, Key: rk})
 			scan := cl.Do(adapt.Op{Kind: adapt.OpScan, Table: spec.Name})
 			x.r.Evals += 3
-			if after.Class != adapt.ClsOK || !val.ItemsEqual(after.Item, before.Item) || scan.Class != adapt.ClsOK || len(scan.Items) != 1 || !val.ItemsEqual(scan.Items[0], before.Item) {
+			if after.Class != adapt.ClsOK || !val.ItemsEqual(after.Item, before.Item) || scan.Class != adapt.ClsOK || adapt.ItemsCanon(scan.Items) != adapt.ItemsCanon(beforeScan.Items) {
 				x.viol("callback-argument-shared", adapter+"/"+rn.name+"/"+lastKind(locs[li].path), fmt.Sprintf("[%s] after %s (class %s) had returned, changing %s of the item the %s was handed changed the stored item: GetItem returns (%s) %s, before %s", adapter, rn.op.Kind, o.Class, locs[li].path, rn.name, after.Class, after.Item.Canon(), before.Item.Canon()),
 					map[string]interface{}{"adapter": adapter, "callback": rn.name, "request": rn.op, "poked_location": locs[li].path})
 			}
